@@ -177,6 +177,23 @@ class Interp:
         L.import_log.append(("end", name))
         return mod
 
+    def define_module(self, name, src):
+        """a module of USER code given as source text by a contract (a subclass, a component following a documented
+        protocol): interpreted exactly like the package's own modules"""
+        L = self.loader
+        if name in L.modules:
+            return L.modules[name]
+        import textwrap
+        src = textwrap.dedent(src)
+        mod = ModuleVal(name, f"<contract:{name}>", False)
+        mod.source, mod.tree = src, ast.parse(src, filename=f"<contract:{name}>")
+        L.modules[name] = mod
+        frame = Frame(None, mod)
+        frame.locals = mod.globals
+        drive(self.exec_block(mod.tree.body, frame))
+        mod.initialised = True
+        return mod
+
     def external_module(self, name):
         m = self.loader.models.get(name)
         if m is None:
@@ -230,7 +247,16 @@ class Interp:
             yield val
             return
         if isinstance(v, ast.YieldFrom):
-            raise Unsupported("yield from")
+            # delegation as a statement (the sub-generator's return value is not used)
+            it = self.eval(v.value, frame)
+            for x in self.iterate(it):
+                try:
+                    yield x
+                except PyExc:
+                    if isinstance(it, GeneratorVal):
+                        raise Unsupported("exception thrown into a delegating generator") from None
+                    raise
+            return
         if isinstance(v, ast.Constant):
             return
         self.eval(v, frame)
@@ -295,7 +321,7 @@ class Interp:
 
     def st_ClassDef(self, node, frame):
         bases = []
-        is_protocol = False
+        is_protocol = is_namedtuple = False
         for b in node.bases:
             bv = self.eval(b, frame)
             if isinstance(bv, GenericAlias):
@@ -303,6 +329,8 @@ class Interp:
             if isinstance(bv, TypingMarker):
                 if "Protocol" in bv.name:
                     is_protocol = True
+                if bv.name == "NamedTuple":
+                    is_namedtuple = True
                 continue
             if isinstance(bv, (ClassVal, ExtClass)):
                 if bv not in bases:
@@ -322,6 +350,14 @@ class Interp:
         cls = ClassVal(node.name, bases, ns, frame.module, qualname=f"{frame.module.name}.{body_frame.qualprefix}")
         cls.is_protocol = is_protocol
         cls.node = node
+        for hook in ("__setattr__", "__getattr__", "__getattribute__", "__delattr__", "__new__"):
+            if hook in ns:
+                raise Unsupported(f"class defining {hook}")
+        if is_namedtuple:
+            if bases:
+                raise PyExc("TypeError", ("can only inherit from a NamedTuple type and Generic",))
+            from .models.stdlib import make_namedtuple
+            make_namedtuple(self, cls)
         for v in ns.values():
             f = v
             if isinstance(v, (StaticMethodVal, ClassMethodVal)):
@@ -411,7 +447,11 @@ class Interp:
     def st_While(self, node, frame):
         key = self.loop_key(node, frame)
         if key in self.loop_contracts:
-            yield from self._run_loop_contract(key, node, frame)
+            try:
+                yield from self._run_loop_contract(key, node, frame)
+            except BreakSignal:
+                return                                  # left by `break`: the else clause is skipped
+            yield from self.exec_block(node.orelse, frame)
             return
         n = 0
         while self.truth(self.eval(node.test, frame)):
@@ -426,6 +466,14 @@ class Interp:
                 continue
         else:
             yield from self.exec_block(node.orelse, frame)
+
+    def exec_loop_body(self, node, frame):
+        """one execution of the body of loop `node` for a loop contract: `continue` ends the body normally; `break` and
+        `return` propagate to the loop statement / the function"""
+        try:
+            yield from self.exec_block(node.body, frame)
+        except ContinueSignal:
+            return
 
     def _run_loop_contract(self, key, node, frame):
         """a loop contract written for the reference shape of the loop (names of the locals it reads) may not
@@ -448,7 +496,11 @@ class Interp:
     def st_For(self, node, frame):
         key = self.loop_key(node, frame)
         if key in self.loop_contracts:
-            yield from self._run_loop_contract(key, node, frame)
+            try:
+                yield from self._run_loop_contract(key, node, frame)
+            except BreakSignal:
+                return                                  # left by `break`: the else clause is skipped
+            yield from self.exec_block(node.orelse, frame)
             return
         it = self.eval(node.iter, frame)
         broke = False
@@ -463,6 +515,112 @@ class Interp:
                 continue
         if not broke:
             yield from self.exec_block(node.orelse, frame)
+
+    # ---- structural pattern matching (PEP 634)
+    def st_Match(self, node, frame):
+        subject = self.eval(node.subject, frame)
+        for case in node.cases:
+            if not self.match_pattern(case.pattern, subject, frame):
+                continue
+            if case.guard is not None and not self.truth(self.eval(case.guard, frame)):
+                continue
+            yield from self.exec_block(case.body, frame)
+            return
+
+    _SELF_MATCHING = ("bool", "bytearray", "bytes", "dict", "float", "frozenset", "int", "list", "set", "str", "tuple")
+
+    def match_pattern(self, pat, value, frame):
+        if isinstance(pat, ast.MatchValue):
+            return self.truth(ops.compare(self, "Eq", value, self.eval(pat.value, frame)))
+        if isinstance(pat, ast.MatchSingleton):
+            if isinstance(value, Sym):
+                raise Unsupported("match of a symbolic value against None / True / False")
+            return value is pat.value
+        if isinstance(pat, ast.MatchAs):
+            if pat.pattern is not None and not self.match_pattern(pat.pattern, value, frame):
+                return False
+            if pat.name is not None:
+                frame.locals[pat.name] = value
+            return True
+        if isinstance(pat, ast.MatchOr):
+            return any(self.match_pattern(p, value, frame) for p in pat.patterns)
+        if isinstance(pat, ast.MatchClass):
+            cls = self.eval(pat.cls, frame)
+            if not ops.isinstance_(self, value, cls):
+                return False
+            if pat.patterns:
+                if isinstance(cls, BuiltinType) and cls.name in self._SELF_MATCHING:
+                    if len(pat.patterns) != 1:
+                        raise PyExc("TypeError", (f"{cls.name}() accepts 1 positional sub-pattern",))
+                    if not self.match_pattern(pat.patterns[0], value, frame):
+                        return False
+                else:
+                    try:
+                        names = self.getattr(cls, "__match_args__")
+                    except PyExc:
+                        raise PyExc("TypeError", ("class pattern with positional sub-patterns needs __match_args__",)) from None
+                    names = list(self.iterate(names))
+                    if len(pat.patterns) > len(names):
+                        raise PyExc("TypeError", ("too many positional sub-patterns",))
+                    for nm, sub in zip(names, pat.patterns):
+                        if not self._match_attr(value, nm, sub, frame):
+                            return False
+            for nm, sub in zip(pat.kwd_attrs, pat.kwd_patterns):
+                if not self._match_attr(value, nm, sub, frame):
+                    return False
+            return True
+        if isinstance(pat, ast.MatchSequence):
+            if not isinstance(value, (list, tuple)):
+                if isinstance(value, (str, dict, int, Fraction, bool, type(None))) or isinstance(value, Sym) or self._plain_object(value):
+                    return False
+                raise Unsupported("sequence pattern over a modelled value")
+            stars = [i for i, p in enumerate(pat.patterns) if isinstance(p, ast.MatchStar)]
+            if not stars:
+                return len(value) == len(pat.patterns) and all(self.match_pattern(p, v, frame) for p, v in zip(pat.patterns, value))
+            i = stars[0]
+            after = len(pat.patterns) - i - 1
+            if len(value) < len(pat.patterns) - 1:
+                return False
+            if not all(self.match_pattern(p, v, frame) for p, v in zip(pat.patterns[:i], value[:i])):
+                return False
+            if after and not all(self.match_pattern(p, v, frame) for p, v in zip(pat.patterns[i + 1:], value[len(value) - after:])):
+                return False
+            if pat.patterns[i].name is not None:
+                frame.locals[pat.patterns[i].name] = list(value[i:len(value) - after])
+            return True
+        if isinstance(pat, ast.MatchMapping):
+            if not isinstance(value, dict):
+                if isinstance(value, (str, list, tuple, int, Fraction, bool, type(None), Sym)) or self._plain_object(value):
+                    return False
+                raise Unsupported("mapping pattern over a modelled value")
+            seen = []
+            for k, sub in zip(pat.keys, pat.patterns):
+                kv = ops.dict_key(self, value, self.eval(k, frame))
+                if kv not in value:
+                    return False
+                seen.append(kv)
+                if not self.match_pattern(sub, value[kv], frame):
+                    return False
+            if pat.rest is not None:
+                frame.locals[pat.rest] = {k: v for k, v in value.items() if k not in seen}
+            return True
+        raise Unsupported(f"pattern {type(pat).__name__}")
+
+    def _plain_object(self, value):
+        """an instance of a user class that derives from user classes / object only (hence neither a Sequence nor a Mapping),
+        or a class / function object"""
+        if isinstance(value, (ClassVal, FuncVal, BoundMethod, BuiltinType)):
+            return True
+        return isinstance(value, Obj) and all(isinstance(c, ClassVal) for c in value.cls.mro)
+
+    def _match_attr(self, value, name, sub, frame):
+        try:
+            v = self.getattr(value, name)
+        except PyExc as e:
+            if e.cls_name == "AttributeError":
+                return False
+            raise
+        return self.match_pattern(sub, v, frame)
 
     def st_Break(self, node, frame):
         raise BreakSignal()
@@ -1117,6 +1275,8 @@ class Interp:
             if v.fget is None:
                 raise PyExc("AttributeError", ("unreadable attribute",))
             return self.call(v.fget, [obj], {}) if not hasattr(v.fget, "qualname") else self.call_function(v.fget, [obj], {})
+        if isinstance(v, Ext) and hasattr(v, "bind_to") and obj is not None:
+            return v.bind_to(obj)
         return v
 
     def getattr(self, o, name):
@@ -1130,6 +1290,10 @@ class Interp:
                 return o.attrs[name]
             if hit is not None:
                 v = hit[1]
+                if type(v).__name__ == "CachedProperty":
+                    val = self.call(v.func, [o], {})
+                    o.attrs[name] = val                      # functools.cached_property stores the value in the instance
+                    return val
                 if isinstance(v, Ext) and hasattr(v, "bind_to"):
                     return v.bind_to(o)
                 return self.bind(v, o, o.cls)
@@ -1177,10 +1341,10 @@ class Interp:
             if name == "getter":
                 return ("prop_getter", o)
         if isinstance(o, FuncVal):
-            if name == "__name__":
-                return o.name
             if name in o.attrs:
                 return o.attrs[name]
+            if name == "__name__":
+                return o.name
         if isinstance(o, BoundMethod) and name == "__self__":
             return o.self_val
         return ops.builtin_getattr(self, o, name)
@@ -1198,6 +1362,8 @@ class Interp:
                 else:
                     self.call(hit[1].fset, [o, v], {})        # property(fget, fset) built from arbitrary callables
                 return
+            if getattr(o.cls, "nt_fields", None) is not None or any(getattr(c, "nt_fields", None) is not None for c in o.cls.mro if isinstance(c, ClassVal)):
+                raise PyExc("AttributeError", ("can't set attribute" if name in o.attrs else f"'{o.cls.name}' object has no attribute '{name}'",))
             h = self.hooks.get("setattr")
             if h is not None:
                 h(self, o, name, v)
